@@ -105,7 +105,11 @@ def main():
             'evidence_file': 'evidence/%s.json' % prop,
             'replay_cmd_template': './check %s --replay {path}' % prop,
             'engine': eng,
-            'level_claimed': {'category': 'model_checking', 'text': text, 'design_ref': 'DESIGN.md section ' + ref},
+            'level_claimed': {'category': 'model_checking',
+                              'text': text + '; in addition one quantity at a time (operand size, counts, depths, lengths, '
+                                             'history length) is taken across a fixed ladder of sizes around 8..256 '
+                                             '(thorough: ..1024 and beyond), DESIGN.md section 9.5',
+                              'design_ref': 'DESIGN.md section ' + ref},
             'level_note': NOTE,
             'technique': tech,
         })
